@@ -156,6 +156,15 @@ def run(c):
         # what children do is irrelevant: a child dies of a signal / exits non-zero, the main task exits n
         for s, n in ((11, 0), (9, 0), (31, 7), (6, 3), (-5, 0), (15, 0)):   # not 24/25: a limit signal of any task ends a ptrace run (by design, C08)
             add(runner, ["childsig", str(s), str(n)], table_exit(n), ("exit", n), _child=s)
+        # job control: the main task stops, is continued by its own child and ends by itself
+        for n in (0, 7):
+            add(runner, ["stopcont", str(n)], table_exit(n), ("exit", n), _stop=True)
+        # the same deaths with a core file written (the status word then carries the core flag)
+        for k, s in (("segv", 11), ("ill", 4)):
+            add(runner, ["fault", k], table_sig(s), ("sig", s), core=True)
+        if runner != "ns":
+            for s in (6, 31, 24, 25, 3):
+                add(runner, ["sig", str(s)], table_sig(s), ("sig", s), core=True)
         if runner == "ns":
             # main task is pid 1 of its namespace: self-sent signals with default action are ignored by the kernel
             add(runner, ["sleep", "5000"], table_sig(9), ("sig", 9), kill=9, kill_after_ms=30)
@@ -176,7 +185,7 @@ def run(c):
             raise RuntimeError("harness: " + o["harness_err"])
         what, v = x["_what"]
         got = (o["status"], o["exit"])
-        c.count(("run", x["runner"], what, v, x.get("kill"), x.get("_child")), klass="run:%s:%s" % (x["runner"], what))
+        c.count(("run", x["runner"], what, v, x.get("kill"), x.get("_child"), x.get("core"), x.get("_stop")), klass="run:%s:%s" % (x["runner"], what))
         items.append("(%d, %s, %s, %s, %s)" % (rid[x["runner"]], coq_bool(what == "exit"), coq_bool("kill" not in x), coq_N(v),
                                                coq_N(code(o["status"], o["exit"], o["err"]))))
         # the table defines the exit value for Normal / Nonzero (the code) and Signalled (the signal number) only
@@ -186,6 +195,7 @@ def run(c):
             c.finding_or_violation({"kind": "table", "runner": x["runner"], "program": " ".join(x["args"]),
                                     "signal_name": SIGNAME.get(v) if what == "sig" else None,
                                     "self_sent": "kill" not in x and x["args"][0] == "sig",
+                                    **({"core_file_written": True} if x.get("core") else {}), **({"stopped_and_continued": True} if x.get("_stop") else {}),
                                     "expected": list(x["_expect"]), "observed": list(got)},
                                    {"case": {k: v2 for k, v2 in x.items() if not k.startswith("_")}, "observed": o},
                                    klass="table:%s:%s" % (x["runner"], what))
